@@ -18,12 +18,13 @@ def make_ca(d, name="ca", days=3650):
     return crt, key
 
 
-def make_leaf(d, name, ca_crt, ca_key, sans=("DNS:localhost",), days=365, cn=None, start=None, eku=None):
+def make_leaf(d, name, ca_crt, ca_key, sans=("DNS:localhost",), days=365, cn=None, start=None, eku=None, ec=False):
     key = os.path.join(d, name + "-key.pem")
     csr = os.path.join(d, name + ".csr")
     crt = os.path.join(d, name + ".pem")
     ext = os.path.join(d, name + ".ext")
-    sh(["openssl", "req", "-newkey", "rsa:2048", "-nodes", "-keyout", key, "-out", csr, "-subj", "/CN=%s" % (cn or name)])
+    alg = ["-newkey", "ec", "-pkeyopt", "ec_paramgen_curve:prime256v1"] if ec else ["-newkey", "rsa:2048"]
+    sh(["openssl", "req"] + alg + ["-nodes", "-keyout", key, "-out", csr, "-subj", "/CN=%s" % (cn or name)])
     with open(ext, "w") as f:
         f.write("basicConstraints=CA:FALSE\nsubjectKeyIdentifier=hash\n")
         if sans:
